@@ -46,7 +46,7 @@ package ro
 //@   track currentSourceSubscription.*
 //@   ensures [releases-the-upstream-of-that-generation|C11] trace(currentSourceSubscription.Unsubscribe())
 //@   ensures [clears-only-the-current-generation|C11] subject == ite(currentSubject == old(subject), nil, old(subject))
-//@   ensures [leaves-the-count-alone|C11,C14] refCount == old(refCount)
+//@   ensures [a-reset-subject-has-no-subscribers-and-another-one-keeps-its-count|C11,C14] refCount == ite(currentSubject == old(subject), 0, old(refCount))
 
 //@ func ShareWithConfig$1$3$2
 //@   note the error callback of the proxy between the source and the subject: the shared state is settled (the generation reset, or marked as kept) BEFORE the subject's subscribers hear about the error, so that whatever they do in response - leave, subscribe again - and whoever arrives meanwhile sees the final state
@@ -80,10 +80,11 @@ package ro
 //@   inline ShareWithConfig$1$2
 //@   track sub.* currentSourceSubscription.*
 //@   ensures [leaves-the-subject|C11,C03] called(sub.Unsubscribe)
-//@   ensures [uncounts-one-subscriber|C11,C03] atunlock(refCount) == atlock(refCount) - 1
-//@   ensures [last-one-out-releases-upstream|C11,C03,C14] did_load(hasBeenResetOnError) && did_load(hasBeenResetOnCompletion) && config.ResetOnRefCountZero && atlock(refCount) == 1 && loaded(hasBeenResetOnError) == 0 && loaded(hasBeenResetOnCompletion) == 0 ==> called(currentSourceSubscription.Unsubscribe)
+//@   ensures [uncounts-one-subscriber-of-the-current-subject|C11,C03] currentSubject == atlock(subject) ==> atunlock(refCount) == atlock(refCount) - 1
+//@   ensures [a-subscriber-of-a-subject-reset-meanwhile-is-not-counted-with-the-next-one|C11,C03] currentSubject != atlock(subject) ==> atunlock(refCount) == atlock(refCount) && !called(currentSourceSubscription.Unsubscribe)
+//@   ensures [last-one-out-releases-upstream|C11,C03,C14] did_load(hasBeenResetOnError) && did_load(hasBeenResetOnCompletion) && currentSubject == atlock(subject) && config.ResetOnRefCountZero && atlock(refCount) == 1 && loaded(hasBeenResetOnError) == 0 && loaded(hasBeenResetOnCompletion) == 0 ==> called(currentSourceSubscription.Unsubscribe)
 //@   ensures [others-remain-so-upstream-stays|C11] atlock(refCount) != 1 ==> !called(currentSourceSubscription.Unsubscribe)
-//@   ensures [last-one-out-reads-both-flags|C11] config.ResetOnRefCountZero && atlock(refCount) == 1 ==> did_load(hasBeenResetOnError)
+//@   ensures [last-one-out-reads-both-flags|C11] currentSubject == atlock(subject) && config.ResetOnRefCountZero && atlock(refCount) == 1 ==> did_load(hasBeenResetOnError)
 //@   ensures [one-critical-section|C11,C13] count(lock.mu) == 1
 
 // ---------------------------------------------------------------------------
@@ -91,14 +92,29 @@ package ro
 // ---------------------------------------------------------------------------
 
 //@ type connectableObservableImpl
-//@   lock mu protects subject subscription
+//@   lock mu protects subject subscription connections ended
 //@   const config source
 
 //@ func (*connectableObservableImpl).ConnectWithContext
 //@   props C11 C13
-//@   track source.* subscription.* SubscribeWithContext().*
+//@   inline (*connectableObservableImpl).disconnected
+//@   track source.* subscription.* SubscribeWithContext().* callfn.config.Connector
 //@   ensures [connects-once|C11] count(source.SubscribeWithContext) <= 1
 //@   ensures [connected-stays-connected|C11] called(source.SubscribeWithContext) ==> atlock(subscription) == nil || (called(subscription.IsClosed) && res(subscription.IsClosed) == true)
+//@   ensures [a-new-connection-feeds-the-subject-that-subscribers-join|C11] called(source.SubscribeWithContext) ==> arg(source.SubscribeWithContext, 1) == atunlock(subject)
+//@   ensures [the-end-of-the-previous-connection-is-handled-before-the-next-one-starts|C11] called(source.SubscribeWithContext) ==> atunlock(connections) == atlock(connections) + 1 && atunlock(ended) >= atlock(connections)
+//@   ensures [an-unhandled-end-resets-the-subject-first-when-configured|C11] called(source.SubscribeWithContext) && atlock(ended) < atlock(connections) && s.config.ResetOnDisconnect ==> before(callfn.config.Connector, source.SubscribeWithContext) && atunlock(subject) == res(callfn.config.Connector)
+//@   ensures [staying-connected-changes-nothing|C11] !called(source.SubscribeWithContext) ==> atunlock(subject) == atlock(subject) && atunlock(connections) == atlock(connections) && atunlock(ended) == atlock(ended)
+
+//@ func (*connectableObservableImpl).disconnected
+//@   note handles the end of a connection, once per connection; called with mu held
+//@   props C11 C13
+//@   binds s connection
+//@   holding mu
+//@   track callfn.config.Connector
+//@   ensures [an-end-already-handled-changes-nothing|C11] connection <= old(ended) ==> trace() && subject == old(subject) && ended == old(ended)
+//@   ensures [the-first-to-notice-resets-when-configured|C11] connection > old(ended) && s.config.ResetOnDisconnect ==> trace(callfn.config.Connector()) && subject == res(callfn.config.Connector) && ended == connection
+//@   ensures [the-first-to-notice-keeps-the-subject-otherwise|C11] connection > old(ended) && !s.config.ResetOnDisconnect ==> trace() && subject == old(subject) && ended == connection
 
 //@ func (*connectableObservableImpl).SubscribeWithContext
 //@   props C11 C13
@@ -109,14 +125,15 @@ package ro
 //@   ensures [joins-the-current-subject-with-its-own-context-and-observer|C11,C09] called(subject.SubscribeWithContext) && arg(subject.SubscribeWithContext, 0) == ctx && arg(subject.SubscribeWithContext, 1) == observer
 
 //@ func (*connectableObservableImpl).ConnectWithContext$1
-//@   note the disconnect callback: the subject is replaced only when the configuration says so, under the mutex
+//@   note the teardown added to a connection: the end of that very connection is handled under the mutex (a later connection is not touched)
 //@   props C11 C13
-//@   binds s
-//@   calls Lock Unlock fn:t10
-//@   params -
-//@   track callfn.ANY config.Connector
-//@   ensures [keeps-the-subject-unless-reset-on-disconnect|C11] !s.config.ResetOnDisconnect ==> trace() && count(lock.mu) == 0
-//@   ensures [reset-on-disconnect-installs-a-fresh-subject-under-the-lock|C11,C13] s.config.ResetOnDisconnect ==> count(lock.mu) == 1
+//@   binds s connection
+//@   inline (*connectableObservableImpl).disconnected
+//@   track callfn.config.Connector
+//@   ensures [handles-the-end-of-its-own-connection-under-the-lock|C11,C13] count(lock.mu) == 1
+//@   ensures [an-end-already-handled-changes-nothing|C11] connection <= atlock(ended) ==> trace() && atunlock(subject) == atlock(subject) && atunlock(ended) == atlock(ended)
+//@   ensures [resets-when-configured|C11] connection > atlock(ended) && s.config.ResetOnDisconnect ==> trace(callfn.config.Connector()) && atunlock(subject) == res(callfn.config.Connector) && atunlock(ended) == connection
+//@   ensures [keeps-the-subject-otherwise|C11] connection > atlock(ended) && !s.config.ResetOnDisconnect ==> trace() && atunlock(subject) == atlock(subject) && atunlock(ended) == connection
 
 // The Share flavours are ShareWithConfig with fixed options: these are their whole meaning.
 
